@@ -1,4 +1,5 @@
 """C19 - timeline events fire exactly once, on time, in any listing order."""
+import copy
 import itertools
 
 from vivarium.core.composition import add_timeline
@@ -48,7 +49,8 @@ def reference(events, ts):
         clock = k * ts
         due = [i for i in pending if events[i][0] <= clock]
         for i in due:
-            cur[events[i][1]] = val(i)
+            var, value = event_effect(events, i)
+            cur[var] = value
             fired.append((i, k))
         pending = [i for i in pending if i not in due]
         out[min((k + 1) * ts, RUN)] = dict(cur)
@@ -56,14 +58,37 @@ def reference(events, ts):
     return out, fired
 
 
+def build_timeline(events):
+    """[(time, change dict)]; an event given as (time, var, 'same', j)
+    re-uses THE SAME dict object as event j (a shared ON/OFF dictionary)."""
+    dicts = []
+    for i, ev in enumerate(events):
+        if len(ev) > 2 and ev[2] == 'same':
+            dicts.append(dicts[ev[3]])
+        else:
+            dicts.append({('env', ev[1]): val(i)})
+    return [(ev[0], d) for ev, d in zip(events, dicts)]
+
+
+def event_effect(events, i):
+    """(variable, value) event i sets."""
+    ev = events[i]
+    if len(ev) > 2 and ev[2] == 'same':
+        return event_effect(events, ev[3])
+    return ev[1], val(i)
+
+
 def run_case(events, ts, via):
-    timeline = [(t, {('env', var): val(i)})
-                for i, (t, var) in enumerate(events)]
+    timeline = build_timeline(events)
+    given = copy.deepcopy([(t, dict(d)) for t, d in timeline])
     holder = probes.Probe({
         'pid': 'holder', 'ts': 1, 'log_states': False,
         'schema': {'env': {
-            'x': {'_default': -1, '_updater': 'set', '_emit': True},
-            'y': {'_default': -1, '_updater': 'set', '_emit': True}}},
+            # the driven variables declare their own (non-set) updaters:
+            # the event's {'_updater': 'set'} must still win
+            'x': {'_default': -1, '_updater': 'accumulate', '_emit': True},
+            'y': {'_default': -1, '_updater': 'nonnegative_accumulate',
+                  '_emit': True}}},
         'update': {}})
     processes = {'holder': holder}
     topology = {'holder': {'env': ('env',)}}
@@ -83,6 +108,9 @@ def run_case(events, ts, via):
         if r['table'] == 'history':
             env = r['snapshot'].get('env', {})
             rows[r['data']['time']] = {'x': env.get('x'), 'y': env.get('y')}
+    now = [(t, dict(d)) for t, d in timeline]
+    if now != given:
+        rows['_mutated'] = (given, now)
     return rows
 
 
@@ -96,6 +124,12 @@ def check(events, ts, via, acc):
         V('C19.crash', f'{type(e).__name__}:{str(e)[:50]}',
           f'unexpected {e!r}')
         return None
+    if '_mutated' in rows:
+        given, now = rows.pop('_mutated')
+        V('C19.input', 'timeline-passed-in-was-modified',
+          f'the change dictionaries handed to TimelineProcess were '
+          f'modified: {given} -> {now}')
+        return rows
     ref, fired = reference(events, ts)
     seen = {(type(v), v) for r in rows.values() for v in r.values()}
     ref_seen = {(type(v), v) for r in ref.values() for v in r.values()}
@@ -135,8 +169,23 @@ def event_lists(ctx):
     n = b['patterned']
     for times in itertools.product(TIMES, repeat=n):
         out.append(tuple((t, 'xy'[i % 2]) for i, t in enumerate(times)))
-    if ctx.quick:
-        pass
+    # one dictionary object re-used by two events at different times, with
+    # another event at the time of its second use (every listing order)
+    for t1, t2 in itertools.combinations(TIMES, 2):
+        base = [(t1, 'x'), (t2, 'x', 'same', 0), (t2, 'y')]
+        for perm in itertools.permutations(range(3)):
+            if perm.index(1) < perm.index(0):
+                continue           # 'same' must follow the event it shares
+            evs = []
+            remap = {}
+            for new_i, old_i in enumerate(perm):
+                remap[old_i] = new_i
+            for old_i in perm:
+                ev = base[old_i]
+                if len(ev) > 2:
+                    ev = (ev[0], ev[1], 'same', remap[ev[3]])
+                evs.append(ev)
+            out.append(tuple(evs))
     return out
 
 
